@@ -614,6 +614,78 @@ static void fam_roundtrip()
 				TMCG_SecretKey sk2;
 				if (!sk2.import(so.str()) || !sk2.check())
 					R->viol("rabin/secret-import", "secret key text does not import/check: " + kid, cell);
+				// ---- object lifecycle: every way a key object can come into being must behave like the generated one.  Secret key:
+				// copy-constructed, copy-assigned into a default-constructed and into another GENERATED key (all members
+				// overwritten), imported from the exported text, constructed from the exported text; public key: copy-constructed,
+				// assigned (into an empty and into another key's object), made from the secret key, imported.  Each secret
+				// variant signs (verified under the original public key) and decrypts a ciphertext made with the original public
+				// key; each public variant verifies a signature of the original secret key and encrypts for it.
+				{
+					std::vector<std::pair<std::string, std::shared_ptr<TMCG_SecretKey> > > sv;
+					sv.push_back(std::make_pair("copy-constructed", std::shared_ptr<TMCG_SecretKey>(new TMCG_SecretKey(*K.sk))));
+					{ std::shared_ptr<TMCG_SecretKey> a(new TMCG_SecretKey()); *a = *K.sk; sv.push_back(std::make_pair("assigned-to-empty", a)); }
+					{ std::shared_ptr<TMCG_SecretKey> a(new TMCG_SecretKey(*P.sk)); *a = *K.sk; sv.push_back(std::make_pair("assigned-over-other-key", a)); }
+					{ std::shared_ptr<TMCG_SecretKey> a(new TMCG_SecretKey()); a->import(so.str()); sv.push_back(std::make_pair("imported", a)); }
+					{ std::shared_ptr<TMCG_SecretKey> a(new TMCG_SecretKey(*P.sk)); a->import(so.str()); sv.push_back(std::make_pair("imported-over-other-key", a)); }
+					sv.push_back(std::make_pair("constructed-from-text", std::shared_ptr<TMCG_SecretKey>(new TMCG_SecretKey(so.str()))));
+					{ std::shared_ptr<TMCG_SecretKey> a(new TMCG_SecretKey(*K.sk)); std::shared_ptr<TMCG_SecretKey> b(new TMCG_SecretKey(*a)); a.reset(); sv.push_back(std::make_pair("copy-of-a-destroyed-copy", b)); }
+					const bool can_encrypt = mpz_sizeinbase(K.sk->m, 2) >= 672;
+					for (size_t vi = 0; vi < sv.size(); vi++)
+					{
+						TMCG_SecretKey &V = *sv[vi].second;
+						R->ok(true);
+						R->counters["lifecycle_cells"]++;
+						if (!V.check())
+							R->viol("rabin/lifecycle/check", "check() refuses the " + sv[vi].first + " secret key of " + kid, cell);
+						std::string sg;
+						{ Coins c(SEED * 6151 + ki * 31 + vi, 58); sg = V.sign("lifecycle"); }
+						if (!K.pk->verify("lifecycle", sg))
+							R->viol("rabin/lifecycle/sign", "signature made with the " + sv[vi].first + " secret key is refused by the original public key of " + kid, cell);
+						if (can_encrypt)
+						{
+							tmcg_openpgp_secure_octets_t dummy; (void)dummy;
+							unsigned char pt[TMCG_SAEP_S0], out[TMCG_SAEP_S0];
+							for (size_t b = 0; b < TMCG_SAEP_S0; b++) pt[b] = (unsigned char)(17 * b + vi + 1);
+							std::string ct;
+							{ Coins c(SEED * 6173 + ki * 37 + vi, 59); ct = K.pk->encrypt(pt); }
+							memset(out, 0, sizeof out);
+							if (!V.decrypt(out, ct) || memcmp(out, pt, TMCG_SAEP_S0))
+								R->viol("rabin/lifecycle/decrypt", "the " + sv[vi].first + " secret key does not decrypt a ciphertext made for " + kid, cell);
+						}
+					}
+					std::vector<std::pair<std::string, std::shared_ptr<TMCG_PublicKey> > > pv;
+					pv.push_back(std::make_pair("copy-constructed", std::shared_ptr<TMCG_PublicKey>(new TMCG_PublicKey(*K.pk))));
+					{ std::shared_ptr<TMCG_PublicKey> a(new TMCG_PublicKey()); *a = *K.pk; pv.push_back(std::make_pair("assigned-to-empty", a)); }
+					{ std::shared_ptr<TMCG_PublicKey> a(new TMCG_PublicKey(*P.pk)); *a = *K.pk; pv.push_back(std::make_pair("assigned-over-other-key", a)); }
+					pv.push_back(std::make_pair("from-secret-key", std::shared_ptr<TMCG_PublicKey>(new TMCG_PublicKey(*K.sk))));
+					pv.push_back(std::make_pair("from-copied-secret-key", std::shared_ptr<TMCG_PublicKey>(new TMCG_PublicKey(*sv[1].second))));
+					{ std::shared_ptr<TMCG_PublicKey> a(new TMCG_PublicKey(*P.pk)); a->import(K.pubtext); pv.push_back(std::make_pair("imported-over-other-key", a)); }
+					pv.push_back(std::make_pair("constructed-from-text", std::shared_ptr<TMCG_PublicKey>(new TMCG_PublicKey(K.pubtext))));
+					std::string sg0;
+					{ Coins c(SEED * 6197 + ki, 60); sg0 = K.sk->sign("lifecycle-pk"); }
+					for (size_t vi = 0; vi < pv.size(); vi++)
+					{
+						TMCG_PublicKey &V = *pv[vi].second;
+						R->ok(true);
+						R->counters["lifecycle_cells"]++;
+						if (!V.check())
+							R->viol("rabin/lifecycle/check", "check() refuses the " + pv[vi].first + " public key of " + kid, cell);
+						if (!V.verify("lifecycle-pk", sg0))
+							R->viol("rabin/lifecycle/verify", "the " + pv[vi].first + " public key refuses a signature of the original secret key of " + kid, cell);
+						if (V.verify("lifecycle-pk.", sg0))
+							R->viol("rabin/lifecycle/verify", "the " + pv[vi].first + " public key accepts the signature for other data (" + kid + ")", cell);
+						if (can_encrypt)
+						{
+							unsigned char pt[TMCG_SAEP_S0], out[TMCG_SAEP_S0];
+							for (size_t b = 0; b < TMCG_SAEP_S0; b++) pt[b] = (unsigned char)(29 * b + vi + 3);
+							std::string ct;
+							{ Coins c(SEED * 6199 + ki * 41 + vi, 61); ct = V.encrypt(pt); }
+							memset(out, 0, sizeof out);
+							if (!K.sk->decrypt(out, ct) || memcmp(out, pt, TMCG_SAEP_S0))
+								R->viol("rabin/lifecycle/encrypt", "a ciphertext made with the " + pv[vi].first + " public key is not decrypted by the original secret key of " + kid, cell);
+						}
+					}
+				}
 				// a signature whose square (the PRab-padded value w || r* || gamma) starts with a zero octet: verify() must still accept
 				{
 					size_t mnsize = mpz_sizeinbase(K.sk->m, 2) / 8;
